@@ -21,6 +21,8 @@ partial def op : P Op := fun ts =>
   | "F" :: ts => match listOf kv ts with
     | some (kvs, ts) => some (.flagValues kvs, ts) | none => none
   | "R" :: ts => some (.reset, ts)
+  | "CF" :: ts => match listOf kv ts with
+    | some (kvs, ts) => some (.configFile kvs, ts) | none => none
   | "A" :: ts => match pair nat nat ts with
     | some ((k, v), ts) => some (.setattr k v, ts) | none => none
   | "S" :: ts => match bool ts with
